@@ -91,6 +91,18 @@ def boundary_c13() -> List[List[list]]:
         res.append([["advance", 1], ["connect", 0], ["verify", 0], ["connect", 1], ["verify", 1],
                     ["put", 0, 0, True, None, False], ["advance", 4800 * 3 - 2],
                     ["get", 1, 0], ["advance", quiet], ["get", 1, 1], ["advance", 4800 * 2], ["lose", 0], ["advance", 16]])
+    # a connection whose only recent activity is an EVENT pushed to it (write() refreshes last_activity):
+    # silent for almost 90 h, an event is delivered, the next sweeps must spare it
+    for x in (0, 3):
+        for more in (False, True):
+            ops = [["advance", 1], ["connect", 0], ["verify", 0], ["put", 0, x, True, None, False],
+                   ["advance", IDLE - 4800], ["app_set", x, vfor(x, 5)], ["ready"]]
+            if more:
+                ops += [["advance", 2400], ["app_set", x, vfor(x, 6)], ["ready"], ["advance", 7200]]
+            else:
+                ops += [["advance", 9600]]
+            ops += [["get", 0, x], ["advance", IDLE - 9600], ["get", 0, x], ["lose", 0], ["advance", 16]]
+            res.append(ops)
     return res
 
 
@@ -294,8 +306,19 @@ def random_script(rng: random.Random, max_ops: int = 30, flavour: str = "c12") -
             p = rng.choice(live)
             kind = rng.choice(["lose", "bad_http", "bad_frame", "put_close", "lose"])
             if kind == "lose":
+                if rng.random() < 0.5:
+                    # something is queued < 0.5 s before the peer ends the connection ...
+                    ops.append(["put", p, x, True, None, False])
+                    ops.append(["app_set", x, vfor(x, rng.randrange(101))])
+                    if rng.random() < 0.5:
+                        ops.append(["advance", rng.choice([2, 4, 6])])
                 ops.append(["lose", p])
                 b.lost.add(p)
+                if rng.random() < 0.5 and b.can_connect(b.addr[p]):
+                    # ... and the same address reconnects and re-subscribes inside the window
+                    i = connect(b.addr[p])
+                    ops.append(["put", i, x, True, None, False])
+                    ops.append(["advance", rng.choice([2, 8, 10])])
             elif kind == "put_close":
                 ops.append(["put", p, x, None, vfor(x, rng.randrange(101)), True])
                 b.dead.add(p)
